@@ -67,6 +67,27 @@ func init() {
 						delete(fr.i.protected, m)
 					}
 				}
+				// a field that is a struct by value (a sync.Map, a mutex ...): its cells belong to
+				// the protected object too
+				var nested func(inner structure, label string, depth int)
+				nested = func(inner structure, label string, depth int) {
+					if depth > 4 {
+						return
+					}
+					for k := range inner {
+						if on {
+							fr.i.protected[&inner[k]] = label
+						} else {
+							delete(fr.i.protected, &inner[k])
+						}
+						if in2, ok := inner[k].(structure); ok {
+							nested(in2, label, depth+1)
+						}
+					}
+				}
+				if inner, ok := st[q].(structure); ok {
+					nested(inner, name+"."+fname, 0)
+				}
 			}
 			if on {
 				cells := st
